@@ -619,6 +619,16 @@ func main() {
 		natFact("hashResolvUpdate", hashOf(bodyText(fu)), fu != nil, "hash of the normalised body of resolvconf.update")
 	}
 
+	// ---- hand-restated client glue (C15): mclient.Run / monitor / filterNetconfig are re-stated in Code/Bridge8.lean (mrun,
+	// filterGen), advanceState and hackAbsoluteSleep are environment operations of the translated automaton whose behaviour
+	// Bridge8 fixes by hand. Their normalised source text is pinned: a change there is a change of a modelled, not verified, part.
+	for _, g := range [][3]string{{"hashMclientRun", "lib/client/mclient.go", "Run"}, {"hashMclientMonitor", "lib/client/mclient.go", "monitor"},
+		{"hashFilterNetconfig", "lib/client/filter.go", "filterNetconfig"}, {"hashAdvanceState", "lib/client/dclient/dclient.go", "advanceState"},
+		{"hashHackAbsoluteSleep", "lib/client/dclient/dclient.go", "hackAbsoluteSleep"}} {
+		fd := funcDecl(g[1], g[2])
+		natFact(g[0], hashOf(bodyText(fd)), fd != nil && fd.Body != nil, "hash of the normalised body of "+g[2]+" ("+g[1]+")")
+	}
+
 	// ---- socket disciplines (C19) ----
 	{
 		disc := func(rel, fn string, openers ...string) string {
